@@ -13,11 +13,16 @@ THEOREMS = ['Pk.C10.C10_core', 'Pk.C10.C10_dissipation', 'Pk.C10.W_nonneg', 'Pk.
             'Pk.C10.C10_l2_gain_lmi', 'Pk.C10.brl_spec_block', 'Pk.C10.C10_stable', 'Pk.C10.brl_P_posDef']
 
 
-def dyadic_weight(rng, kind):
-    """a first-order SISO filter with dyadic entries"""
-    Aw = np.array([[rng.choice([0.25, 0.5, -0.25])]])
-    Bw = np.array([[rng.choice([1.0, 0.5])]])
-    Cw = np.array([[rng.choice([1.0, -0.5, 2.0])]])
+def dyadic_weight(rng, kind, order=None):
+    """a first- or second-order SISO filter with dyadic entries"""
+    if (order == 1) or (order is None and rng.random() < 0.5):
+        Aw = np.array([[rng.choice([0.25, 0.5, -0.25])]])
+        Bw = np.array([[rng.choice([1.0, 0.5])]])
+        Cw = np.array([[rng.choice([1.0, -0.5, 2.0])]])
+    else:
+        Aw = np.array([[0.5, 0.25], [0.0, -0.25]])
+        Bw = np.array([[0.25], [0.5]])
+        Cw = np.array([[2.0, -3.0]])
     Dw = np.array([[rng.choice([0.0, 0.5, 1.0])]])
     return (kind, Aw, Bw, Cw, Dw)
 
@@ -27,18 +32,23 @@ def blk(M, n):
     return scipy.linalg.block_diag(*[M] * n)
 
 
-def structure_case(ctx):
+def structure_case(ctx, forced=None):
     rng = ctx.rng
     nx, nu = rng.randint(1, 2), rng.randint(1, 2)
+    if forced is not None:
+        nx, nu = forced[2], forced[3]
     X, kw, _, _ = lc.lin_data(rng, nx, nu, noise=0.05)
     Xu, Xs = pykoop.shift_episodes(X, n_inputs=nu, episode_feature=True)
     Xu, Xs = Xu[:, 1:], Xs[:, 1:]
     wk = rng.choice([None, 'pre', 'post'])
-    weight = None if wk is None else dyadic_weight(rng, wk)
+    order = None
+    if forced is not None:
+        wk, order = forced[0], forced[1]
+    weight = None if wk is None else dyadic_weight(rng, wk, order)
     reg = lmi.LmiEdmdHinfReg(alpha=1, ratio=1, weight=weight, picos_eps=0, solver_params=dict(lc.SOLVER))
     reg.tsvd_ = pykoop.Tsvd()
     reg.alpha_tikhonov_, reg.alpha_other_ = 0.0, 1.0
-    nw = 0 if weight is None else (nu if wk == 'pre' else nx)
+    nw = 0 if weight is None else (nu if wk == 'pre' else nx) * weight[1].shape[0]
     n = nx + nw
     P = lc.dyadic(rng, (n, n))
     P = (P + P.T) / 2
@@ -58,26 +68,26 @@ def structure_case(ctx):
         _, Aw1, Bw1, Cw1, Dw1 = weight
         r = nu if wk == 'pre' else nx
         Aw, Bw, Cw, Dw = blk(Aw1, r), blk(Bw1, r), blk(Cw1, r), blk(Dw1, r)
-        Ue = picos_const = None
+        rs_, ro_ = Aw.shape[0], Cw.shape[0]        # filter state / output counts after replication
         import picos
         Upc = picos.Constant('U', U)
         Ass, Bss, Css, Dss = lmi._create_ss(Upc, weight)
         impl = [lc.to_np(M.value) if not isinstance(M, np.ndarray) else M for M in (Ass, Bss, Css, Dss)]
         if wk == 'post':
-            line = (f"post {nx} {r} {nx} {nu} {nx} {lc.mat_tok(Am)} {lc.mat_tok(Bm)} {lc.mat_tok(Cm)} {lc.mat_tok(Dm)} "
+            line = (f"post {nx} {rs_} {nx} {nu} {ro_} {lc.mat_tok(Am)} {lc.mat_tok(Bm)} {lc.mat_tok(Cm)} {lc.mat_tok(Dm)} "
                     f"{lc.mat_tok(Aw)} {lc.mat_tok(Bw)} {lc.mat_tok(Cw)} {lc.mat_tok(Dw)}")
-            A = np.block([[Am, np.zeros((nx, r))], [Bw @ Cm, Aw]])
+            A = np.block([[Am, np.zeros((nx, rs_))], [Bw @ Cm, Aw]])
             B = np.vstack((Bm, Bw @ Dm))
             C = np.hstack((Dw @ Cm, Cw))
             D = Dw @ Dm
         else:
-            line = (f"pre {nx} {r} {nu} {nu} {nx} {lc.mat_tok(Am)} {lc.mat_tok(Bm)} {lc.mat_tok(Cm)} {lc.mat_tok(Dm)} "
+            line = (f"pre {nx} {rs_} {nu} {nu} {nx} {lc.mat_tok(Am)} {lc.mat_tok(Bm)} {lc.mat_tok(Cm)} {lc.mat_tok(Dm)} "
                     f"{lc.mat_tok(Aw)} {lc.mat_tok(Bw)} {lc.mat_tok(Cw)} {lc.mat_tok(Dw)}")
-            A = np.block([[Aw, np.zeros((r, nx))], [Bm @ Cw, Am]])
+            A = np.block([[Aw, np.zeros((rs_, nx))], [Bm @ Cw, Am]])
             B = np.vstack((Bw, Bm @ Dw))
             C = np.hstack((Dm @ Cw, Cm))
             D = Dm @ Dw
-        out.append((line, impl, f'_create_ss {wk}'))
+        out.append((line, impl, f'_create_ss {wk} order {Aw1.shape[0]}'))
     k_out = C.shape[0]
     m_in = B.shape[1]
     big = [b for b in blocks if b[0].shape[0] == 2 * n + m_in + k_out][-1][0]
@@ -108,19 +118,31 @@ def hinf_norm(A, B, C, D, n_grid=4000):
     return max(vals[i], sig((lo + hi) / 2))
 
 
-def oracle_fit(ctx, thorough):
+def oracle_fit(ctx, thorough, forced=None):
     rng = ctx.rng
     nx, nu = rng.randint(1, 3), rng.randint(1, 2)
-    X, kw, _, _ = lc.lin_data(rng, nx, nu, radius=rng.choice([0.6, 0.9]), noise=0.02)
+    if forced is not None:
+        nx = 2
+    X, kw, _, _ = lc.lin_data(rng, nx, nu, radius=rng.choice([0.6, 0.9]), noise=0.02, n_min=12 if forced is None else 40)
     wk = rng.choice([None, None, 'pre', 'post'])
+    if forced is not None:
+        wk = forced[0]
     weight = None
     if wk is not None:
-        ss = scipy.signal.ZerosPolesGain([-0.5], [-3.0], 1.0).to_ss()
-        ssd = ss.to_discrete(0.5, method='bilinear')
-        weight = (wk, ssd.A, ssd.B, ssd.C, ssd.D)
+        if forced is None and rng.random() < 0.5:
+            ss = scipy.signal.ZerosPolesGain([-0.5], [-3.0], 1.0).to_ss()
+            ssd = ss.to_discrete(0.5, method='bilinear')
+            weight = (wk, ssd.A, ssd.B, ssd.C, ssd.D)
+        else:       # a second-order filter in modal form, feasible with the initial P = I
+            weight = (wk, np.diag([0.6, -0.3]), np.array([[0.3], [0.2]]), np.array([[2.0, -3.0]]), np.array([[0.5]]))
     fam = rng.choice(['edmd', 'dmdc'])
+    if forced is not None:
+        fam = forced[1]
     args = dict(alpha=rng.choice([0.5, 1, 5]), ratio=rng.choice([0.5, 1]), weight=weight, max_iter=rng.choice([1, 2, 4]),
                 square_norm=rng.random() < 0.3, solver_params=dict(lc.SOLVER))
+    if forced is not None:
+        # a heavily regularised fit makes gamma_ tight, so a wrong cascade shows as norm > gamma_
+        args.update(alpha=100, ratio=1, max_iter=6, square_norm=False)
     reg = (lmi.LmiEdmdHinfReg if fam == 'edmd' else lmi.LmiDmdcHinfReg)(**args)
     case = {'family': fam, 'nx': nx, 'nu': nu, 'weight': wk, 'alpha': args['alpha'], 'ratio': args['ratio'],
             'max_iter': args['max_iter'], 'X': X.tolist()}
@@ -177,8 +199,10 @@ def run(ctx):
     ctx.proof_obligations('Properties.C10', THEOREMS)
     drv = ctx.get_driver()
     la_lines, la_meta = [], []
-    for i in range(ctx.n(25, 300)):
-        items, tag = structure_case(ctx)
+    forced_struct = [(wk, order, nx, nu) for wk in ('pre', 'post') for order in (1, 2) for nx in (1, 2) for nu in (1, 2)] \
+        + [(None, None, 2, 1)]
+    for i in range(ctx.n(25, 300) + len(forced_struct)):
+        items, tag = structure_case(ctx, forced_struct[i] if i < len(forced_struct) else None)
         for line, impl, what in items:
             la_lines.append(line)
             la_meta.append((impl, what, tag))
@@ -212,8 +236,9 @@ def run(ctx):
         wantU = np.zeros_like(script.a[0][1]) if ui < 0 else script.a[ui][1]
         if not np.array_equal(reg.coef_.T, wantU):
             ctx.mismatch('returned U', case, reg.coef_.T.tolist(), [ui])
-    for i in range(ctx.n(14, 250)):
-        why, case, note = oracle_fit(ctx, ctx.tier == 'thorough')
+    sweeps = [('post', fam) for fam in ('edmd', 'dmdc') for _ in range(4)] + [('pre', 'edmd'), ('pre', 'dmdc')]   # second-order weights, two states
+    for i in range(ctx.n(14, 250) + len(sweeps)):
+        why, case, note = oracle_fit(ctx, ctx.tier == 'thorough', forced=sweeps[i] if i < len(sweeps) else None)
         ctx.count('fit:' + case['family'] + '/' + str(case['weight']))
         if why:
             ctx.fail(why, case, {'family': case['family'], 'weight': case['weight']})
